@@ -702,11 +702,12 @@ package dials
 //@ fun graphBound() int
 //@ macro memoRoom(d *deepCopier) int = graphBound() - len(d.ptrMap) - len(d.mapMap)
 //@ macro memoOK(d *deepCopier) bool = (forall k ptrKey :: {mget(d.ptrMap, k)} mhas(d.ptrMap, k) ==> valid(mget(d.ptrMap, k)) && vtype(mget(d.ptrMap, k)) == k.typ)
-//@ macro wfCopier(d *deepCopier) bool = d != nil && d.ptrMap != nil && d.mapMap != nil && allocT(d) < clock && memoOK(d)
+//@      && (forall k ptrKey :: {mget(d.mapMap, k)} mhas(d.mapMap, k) ==> valid(mget(d.mapMap, k)) && vtype(mget(d.mapMap, k)) == k.typ)
+//@ macro wfCopier(d *deepCopier) bool = d != nil && d.ptrMap != nil && d.mapMap != nil && d.ptrMap != d.mapMap && allocT(d) < clock && memoOK(d)
 //@ macro young(d *deepCopier, r Ref) bool = allocT(r) >= allocT(d)
 // where deepCopy may write: a settable location in an object the copier made, or (maps, slices) a referent the copier made
 //@ macro writable(d *deepCopier, out Val) bool = valid(out) && young(d, vroot(out)) && allocT(vroot(out)) < clock && vroot(out) != nil
-//@      && (canSet(out) || ((kind(vtype(out)) == Map || kind(vtype(out)) == Slice) && !visnil(out) && young(d, vptr(out)) && allocT(vptr(out)) < clock && vptr(out) != nil))
+//@      && (canSet(out) || (kind(vtype(out)) == Slice && !visnil(out) && young(d, vptr(out)) && allocT(vptr(out)) < clock && vptr(out) != nil))
 // what one call may write among the objects that existed when it started: the object holding out, and - for a
 // map or slice that cannot be replaced - its referent; everything else it writes was allocated during the call
 //@ macro writesStayBelow(out Val, h0 int, c0 int) bool = forall w Val :: {visnilH(rh, w)} {vptrH(rh, w)} {vElemH(rh, w)} {vlenH(rh, w)} {vcapH(rh, w)} {vpointerH(rh, w)}
@@ -726,7 +727,7 @@ package dials
 //@   requires wfCopier(d) && valid(in) && valid(out) && vtype(in) == vtype(out)
 //@   modifies maps:deepCopier.ptrMap
 //@   ensures memoOK(d)
-//@   ensures C03_memo_only_grows: len(d.ptrMap) >= old(len(d.ptrMap))
+//@   ensures C03_memo_only_grows: len(d.ptrMap) >= old(len(d.ptrMap)) && len(d.mapMap) == old(len(d.mapMap))
 //@   ensures C03_memo_entries_are_never_replaced: forall k ptrKey :: {mget(d.ptrMap, k)} old(mhas(d.ptrMap, k)) ==> mhas(d.ptrMap, k) && mget(d.ptrMap, k) == old(mget(d.ptrMap, k))
 
 //@ func dials.(*deepCopier).deepCopy(d, in, out)
@@ -813,6 +814,7 @@ package dials
 //@   decreases memoRoom(d), boxDepth(in), vrank(vtype(in)), 1
 //@   modifies rh, maps:deepCopier.ptrMap, maps:deepCopier.mapMap
 //@   loop 0:
+//@     invariant C03_the_map_is_memoized_before_its_entries_are_copied: memoRoom(d) < old(memoRoom(d))
 //@     invariant !visnil(out) && young(d, vptr(out)) && allocT(vptr(out)) < clock && vptr(out) != nil
 //@     invariant C02_entries_are_written_into_the_copy: allocT(vptr(out)) >= old(clock) || (!canSet(out) && vptr(out) == vptrH(old(rh), out))
 //@     invariant memoOK(d) && oldHeap(d)
